@@ -850,6 +850,8 @@ func prefixLiterals(p *ssa.BasicBlock, s ssa.Value) []prefixLit {
 // --------------------------------------------------------------------- C31
 
 func checkC31(c *Ctx) {
+	c.Rule("C31.fresh", "a command action keeps no state of its own between invocations: no local variable of the function that builds the command table is written by an action (a remembered line or block position would go stale with the next block move)")
+	checkActionsStateless(c, "C31.fresh")
 	c.Rule("C31.set", "Cursor.Set (with the helpers it calls), walked over the 13 orderings of (v, 0, maxValue), stores v and returns nil exactly when 0 <= v < maxValue and otherwise returns an error without touching the cursor; nothing else writes Cursor.value")
 	c.Rule("C31.index", "navigation commands (up, down, goto, find, entrypoint) reach a listing index only with a validated value; the cyclic search of find reduces its start and every step modulo the number of lines")
 	c.Rule("C31.err", "errors of the navigation commands are returned to the UI (error propagation in package disassemble), except setting the cursor to a line obtained from the listing layout")
@@ -1196,11 +1198,29 @@ func windowWalk(c *Ctx, rule string, pf *ssa.Function) int {
 	}
 	walked := 0
 	firstBad := ""
-	for L := int64(1); L <= 7 && firstBad == ""; L++ {
-		for cur := int64(0); cur < L && firstBad == ""; cur++ {
-			for n := int64(1); n <= L+3 && firstBad == ""; n++ {
+	// the least height the view can be granted (Composite refuses less: C24.min)
+	minLines := int64(1)
+	if pf.Signature.Recv() != nil {
+		for _, fn := range c.Prog.Funcs() {
+			if fn.Blocks != nil && fn.Signature.Recv() != nil && types.Identical(fn.Signature.Recv().Type(), pf.Signature.Recv().Type()) && NameOf(fn) == "MinLines" {
+				w := (&Valuation{}).Walk(fn.Blocks[0], nil)
+				if m, ok := w.RetInt[0]; ok && w.OK {
+					minLines = m
+				}
+			}
+		}
+	}
+	for L := int64(0); L <= 7 && firstBad == ""; L++ {
+		for cur := int64(0); (cur < L || (L == 0 && cur == 0)) && firstBad == ""; cur++ {
+			nFrom, nTo := int64(1), L+3
+			if L == 0 {
+				// nothing to show: every height the view can get
+				nFrom, nTo = minLines, minLines+5
+			}
+			for n := nFrom; n <= nTo && firstBad == ""; n++ {
 				printed := int64(0)
 				bad := ""
+				sw := &StrWalk{Bind: func(ssa.Value) (string, bool) { return "", false }}
 				var vl *Valuation
 				vl = &Valuation{
 					Enter: inModule,
@@ -1248,10 +1268,11 @@ func windowWalk(c *Ctx, rule string, pf *ssa.Function) int {
 						}
 					case *ssa.Call:
 						if f := x.Call.StaticCallee(); f != nil && (f.String() == "fmt.Printf" || f.String() == "fmt.Print" || f.String() == "fmt.Println") {
-							printed++
+							printed += printedLines(sw, x)
 						}
 					}
 				}
+				sw.Install(vl)
 				res := vl.Walk(pf.Blocks[0], nil)
 				walked++
 				where := fmt.Sprintf("with %d lines, the cursor on line %d and %d lines granted: ", L, cur, n)
@@ -1516,4 +1537,129 @@ func checkParseCommandWalk(c *Ctx, rule string) *ssa.Function {
 	}
 	c.RequireCount(rule+" walks of parseCommand", nWalk, 40)
 	return pc
+}
+
+// checkActionsStateless: see rule C31.fresh.
+func checkActionsStateless(c *Ctx, rule string) {
+	n := 0
+	for _, cl := range findCommands(c) {
+		act := cl.Action
+		if act == nil || act.Blocks == nil {
+			continue
+		}
+		n++
+		bad := ""
+		// a captured variable is a free variable holding the address of a cell of
+		// the enclosing function; writing it (here or in a helper closure of the
+		// action) makes the action remember something
+		var scan func(f *ssa.Function)
+		scan = func(f *ssa.Function) {
+			for _, b := range f.Blocks {
+				for _, in := range b.Instrs {
+					st, ok := in.(*ssa.Store)
+					if !ok {
+						continue
+					}
+					if fv, isFV := st.Addr.(*ssa.FreeVar); isFV {
+						// only cells of the table-building function (not the action's own locals
+						// captured by its inner closures)
+						root := f
+						for root.Parent() != nil && root != act {
+							root = root.Parent()
+						}
+						if root == act && freeVarBelongsAbove(fv, act) {
+							bad = fv.Name() + " at " + c.Prog.Pos(st.Pos())
+						}
+					}
+				}
+			}
+			for _, af := range f.AnonFuncs {
+				scan(af)
+			}
+		}
+		scan(act)
+		c.Oblige(rule, cmdKey(cl), c.Prog.Pos(cl.Pos), bad == "", "the action writes the captured variable "+bad+": what it remembers is not refreshed when the listing changes")
+	}
+	c.RequireCount(rule+" command actions", n, 17)
+}
+
+// freeVarBelongsAbove: fv (a free variable of act or of a closure nested in
+// act) stands for a variable declared outside act.
+func freeVarBelongsAbove(fv *ssa.FreeVar, act *ssa.Function) bool {
+	f := fv.Parent()
+	name := fv.Name()
+	for f != nil && f != act {
+		// is the variable captured from the parent, i.e. also a free variable there?
+		p := f.Parent()
+		if p == nil {
+			return false
+		}
+		found := false
+		for _, pfv := range p.FreeVars {
+			if pfv.Name() == name {
+				found = true
+			}
+		}
+		if p == act {
+			return found
+		}
+		if !found {
+			return false
+		}
+		f = p
+	}
+	return f == act
+}
+
+// printedLines: the number of line ends a fmt.Print* call writes: the newlines
+// of the text where it can be evaluated (a constant or built format, string
+// arguments of Print), at least one for Printf/Println otherwise.
+func printedLines(sw *StrWalk, call *ssa.Call) int64 {
+	f := call.Call.StaticCallee()
+	countIn := func(v ssa.Value) (int64, bool) {
+		s, ok := sw.StrOf(v)
+		return int64(strings.Count(s, "\n")), ok
+	}
+	// the variadic arguments: values stored into the fresh array behind the slice
+	varargs := func(v ssa.Value) []ssa.Value {
+		var out []ssa.Value
+		if sl, ok := v.(*ssa.Slice); ok {
+			if al, ok := sl.X.(*ssa.Alloc); ok && al.Referrers() != nil {
+				for _, r := range *al.Referrers() {
+					if ia, ok := r.(*ssa.IndexAddr); ok && ia.Referrers() != nil {
+						for _, r2 := range *ia.Referrers() {
+							if st, ok := r2.(*ssa.Store); ok && st.Addr == ssa.Value(ia) {
+								out = append(out, st.Val)
+							}
+						}
+					}
+				}
+			}
+		}
+		return out
+	}
+	switch f.String() {
+	case "fmt.Printf":
+		if n, ok := countIn(call.Call.Args[0]); ok {
+			return n
+		}
+		return 1
+	case "fmt.Println":
+		n := int64(1)
+		for _, a := range varargs(call.Call.Args[0]) {
+			if k, ok := countIn(Unwrap(a)); ok {
+				n += k
+			}
+		}
+		return n
+	case "fmt.Print":
+		n := int64(0)
+		for _, a := range varargs(call.Call.Args[0]) {
+			if k, ok := countIn(Unwrap(a)); ok {
+				n += k
+			}
+		}
+		return n
+	}
+	return 0
 }
